@@ -28,6 +28,7 @@ var verifSamples = []verifKindSample{
 	{"RequestBody", func() any { return &RequestBody{} }, `{"description":"d","required":true,"content":{"text/plain":{"schema":{"type":"string"}}},"x-ext":1}`, []string{"content"}},
 	{"Response", func() any { return &Response{} }, `{"description":"d","headers":{"X":{"schema":{"type":"string"}}},"content":{"text/plain":{"schema":{"type":"string"}}},"links":{"l":{"operationId":"op"}},"x-ext":1}`, nil},
 	{"Operation", func() any { return &Operation{} }, `{"tags":["t"],"summary":"s","description":"d","operationId":"op","parameters":[{"name":"p","in":"query","schema":{"type":"string"}}],"requestBody":{"content":{"text/plain":{"schema":{"type":"string"}}}},"responses":{"200":{"description":"d"}},"callbacks":{"cb":{"{$request.body#/u}":{"post":{"responses":{"200":{"description":"d"}}}}}},"deprecated":true,"security":[{"s":["a"]}],"servers":[{"url":"https://s"}],"externalDocs":{"url":"https://e"},"x-ext":1}`, []string{"responses"}},
+	{"OperationOptOut", func() any { return &Operation{} }, `{"responses":{"200":{"description":"d"}},"security":[],"x-ext":1}`, []string{"responses"}},
 	{"PathItem", func() any { return &PathItem{} }, `{"summary":"s","description":"d","get":{"responses":{"200":{"description":"d"}}},"put":{"responses":{"200":{"description":"d"}}},"post":{"responses":{"200":{"description":"d"}}},"delete":{"responses":{"200":{"description":"d"}}},"options":{"responses":{"200":{"description":"d"}}},"head":{"responses":{"200":{"description":"d"}}},"patch":{"responses":{"200":{"description":"d"}}},"trace":{"responses":{"200":{"description":"d"}}},"servers":[{"url":"https://s"}],"parameters":[{"$ref":"#/components/parameters/P"}],"x-ext":1}`, nil},
 	{"Components", func() any { return &Components{} }, `{"schemas":{"S":{"type":"string"}},"parameters":{"P":{"name":"p","in":"query","schema":{"type":"string"}}},"headers":{"H":{"schema":{"type":"string"}}},"requestBodies":{"B":{"content":{"text/plain":{"schema":{"type":"string"}}}}},"responses":{"R":{"description":"d"}},"securitySchemes":{"s":{"type":"http","scheme":"basic"}},"examples":{"E":{"value":1}},"links":{"L":{"operationId":"op"}},"callbacks":{"C":{"{$request.body#/u}":{"post":{"responses":{"200":{"description":"d"}}}}}},"x-ext":1}`, nil},
 	{"SecurityScheme", func() any { return &SecurityScheme{} }, `{"type":"oauth2","description":"d","name":"n","in":"header","scheme":"bearer","bearerFormat":"jwt","flows":{"implicit":{"authorizationUrl":"https://a","refreshUrl":"https://r","scopes":{"a":"b"},"x-ext":1},"password":{"tokenUrl":"https://t","scopes":{}},"clientCredentials":{"tokenUrl":"https://t","scopes":{}},"authorizationCode":{"authorizationUrl":"https://a","tokenUrl":"https://t","scopes":{}},"x-ext":1},"openIdConnectUrl":"https://o","x-ext":1}`, nil},
